@@ -62,6 +62,7 @@ type c08Pair struct {
 	final     []byte
 	finalOK   bool
 	badDigest string
+	comp      string // "" no COMP line, else its text
 }
 
 func c08CommonPrefix(a, b []byte) int {
@@ -284,6 +285,10 @@ func c08Assign(pairs []*c08Pair, sWire, rWire []byte, binary, compressed, escape
 				}
 				pairs[idx].sizes = append(pairs[idx].sizes, n)
 			}
+		case "COMP":
+			if idx >= 0 && idx < len(pairs) {
+				pairs[idx].comp = l.text
+			}
 		case "DATA":
 			dataBuf = append(dataBuf, l.data...)
 		}
@@ -325,6 +330,7 @@ type c08Transfer struct {
 	problem string // transfer-level failure
 	stall   bool   // empty source over a non-empty destination, protocol >= 3 (expected to time out)
 	timeout int
+	auto    bool // compress auto (no -c): the sender probes the file after the seek to matchStep
 	dbgWire []byte
 	others  []string
 }
@@ -375,6 +381,9 @@ func c08Run(work string, id int, t *c08Transfer, deadline time.Duration) {
 		os.WriteFile(filepath.Join(dest, n), b, 0644)
 	}
 	compress := "no"
+	if t.auto {
+		compress = ""
+	}
 	cfg := e2eCfg{upload: t.upload, binary: t.binary, overwrite: true, proto: t.proto, compress: compress,
 		timeout: 10, quiet: true, deadline: deadline}
 	if t.timeout > 0 {
@@ -437,6 +446,13 @@ func c08Run(work string, id int, t *c08Transfer, deadline time.Duration) {
 	if msg := c08Assign(t.pairs, r.wire[sDir], r.wire[rDir], t.binary, compressed, escaped, 0xee); msg != "" && t.problem == "" {
 		t.problem = "transcript: " + msg
 	}
+	if t.auto { // the payload is countable only where the sender announced "no compression"
+		for _, p := range t.pairs {
+			if p.comp != "false" {
+				p.payload = -1
+			}
+		}
+	}
 	// every HASH digest is the MD5 of the source prefix of the announced length
 	for _, p := range t.pairs {
 		for _, h := range p.hashes {
@@ -471,6 +487,9 @@ func c08AcksStr(a []trzsz.VerifHashAck) string {
 // per file.  small = the file contents are handed to the extracted list model.
 func c08Judge(c *ctx, t *c08Transfer, B int64, small bool) {
 	desc := c08Desc(t)
+	if t.auto {
+		desc += " compress=auto"
+	}
 	c.count(fmt.Sprintf("proto:%d", t.proto))
 	c.count(fmt.Sprintf("upload:%v", t.upload))
 	c.count(fmt.Sprintf("binary:%v", t.binary))
@@ -552,6 +571,12 @@ func c08Judge(c *ctx, t *c08Transfer, B int64, small bool) {
 		}
 		if len(p.dst) > len(p.src) {
 			c.count("dst-longer(tail cut)")
+		}
+		if t.auto {
+			c.count("auto-compress COMP=" + p.comp)
+			if remaining >= 128*1024 {
+				c.count("auto-compress probe after seek (remaining >= 128 KiB)")
+			}
 		}
 		// number of HASH lines before Over; a short count = the hash sender saw stopNow
 		nh := 0
@@ -785,6 +810,54 @@ func c08RealBlock(c *ctx) []*c08Transfer {
 	return transfers
 }
 
+// c08Probe: resumed transfers with compress auto where the part still to send is around the
+// 128 KiB threshold: isCompressionProfitable seeks around in the source AFTER sendPrefixHash
+// has positioned it at matchStep and must leave it there.
+func c08Probe(c *ctx) []*c08Transfer {
+	work, _ := os.MkdirTemp("", "e2e_resume_probe_")
+	defer os.RemoveAll(work)
+	KiB := 1024
+	var transfers []*c08Transfer
+	n := c.pick(4, 24)
+	for i := 0; i < n; i++ {
+		t := &c08Transfer{upload: i%4 != 3, binary: i%2 == 0, proto: []int{4, 3}[(i/2)%2], seed: c.rng.Int63(), auto: true}
+		rng := rand.New(rand.NewSource(t.seed))
+		for j := 0; j < 6; j++ {
+			srcLen := 300*KiB + rng.Intn(100*KiB)
+			if j == 2 {
+				srcLen += 128 * KiB
+			}
+			var keep int
+			switch j {
+			case 0:
+				keep = srcLen - 128*KiB // exactly 128 KiB left
+			case 1:
+				keep = srcLen - 128*KiB + 1 // one byte less: compression fixed, no probe
+			case 2:
+				keep = srcLen - 3*128*KiB - rng.Intn(1000) // three probe blocks
+			case 3:
+				keep = 1 + rng.Intn(1000)
+			default:
+				keep = 1 + rng.Intn(srcLen-128*KiB)
+			}
+			p := &c08Pair{name: fmt.Sprintf("p%02d.bin", j), kind: "prefix", payload: -1}
+			p.src = fillBytes(rng, srcLen, []int{0, 2, 1, 2, 0, 2}[j]) // incompressible / text / zeros
+			if j == 5 {                                                 // compressible head, incompressible rest
+				copy(p.src[srcLen/2:], fillBytes(rng, srcLen-srcLen/2, 0))
+			}
+			p.dst = append([]byte(nil), p.src[:keep]...)
+			if j == 4 && keep > 10 { // diverging a little before the end of the destination: nothing kept (one block)
+				p.dst[keep-5] ^= 0xff
+				p.kind = "diverge-shorter"
+			}
+			t.pairs = append(t.pairs, p)
+		}
+		transfers = append(transfers, t)
+	}
+	parallelDo(len(transfers), 8, func(i int) { c08Run(work, 200000+i, transfers[i], 60*time.Second) })
+	return transfers
+}
+
 // c08Overlay builds <go>/bin/ov64/{corr,trz,tsz} with kPrefixHashStep rewritten to 64.
 func c08Overlay() (string, error) {
 	goDir := filepath.Dir(e2eBinDir)
@@ -865,6 +938,7 @@ func genResume(c *ctx) {
 	if err := cmd.Start(); err != nil {
 		panic("overlay harness: " + err.Error())
 	}
+	probe := c08Probe(c)
 	big := c08RealBlock(c)
 	if err := cmd.Wait(); err != nil {
 		panic("overlay harness failed: " + err.Error() + "\n" + tailStr(cerr.String(), 3000))
@@ -904,6 +978,10 @@ func genResume(c *ctx) {
 		panic("the overlay copy did not run with block size 64")
 	}
 	// the real-block cases are judged last so that a replay names a small case when there is one
+	for _, t := range probe {
+		c.count("auto-compress-transfer")
+		c08Judge(c, t, trzsz.VerifPrefixHashStep(), false)
+	}
 	for _, t := range big {
 		c.count("real-block-transfer")
 		c08Judge(c, t, trzsz.VerifPrefixHashStep(), false)
